@@ -1276,3 +1276,55 @@ def r_samplecount(db, rep):
             rep.viol("%s#sample-count-%s" % (f.qn, role.replace(" ", "-")), f.nloc(n),
                      "%s uses %s samples in its %s where SSA::build_bwt allocates %s: entries are left unconverted / read past / not saved" % (
                          f.qn, c, role, ref), f.qn)
+
+
+@rule("R-COUNTERWIDTH", 3, "a local counter narrower than 32 bits that a loop increments (or a local fed from one) is not what a wider length / size "
+                           "parameter or field receives: the count wraps at 256 / 65536 long before the receiver's range is used up")
+def r_counterwidth(db, rep):
+    for f in sorted(db.funcs.values(), key=lambda x: (x.file, x.line)):
+        if not f.body or f.file.startswith("libcds/"):
+            continue
+        narrow = {}
+        for n in f.live_nodes():
+            if n["k"] == "DeclStmt":
+                for d in n["decls"]:
+                    if "d" in d and "t" in d:
+                        t = f.types[d["t"]]
+                        if t.get("kind") in ("int", "uint") and (t.get("bits") or 0) in (8, 16):
+                            narrow[d["d"]] = (d["n"], t)
+        if not narrow:
+            continue
+        counters = set()
+        for lv, w in written_lvalues(f):
+            p = access_path(f, lv)
+            if p and p[0] == "local" and len(p) == 2 and p[1] in narrow and \
+                    ((w["k"] == "UnaryOperator" and w["op"] == "++") or w.get("op") == "+=") and \
+                    any(a["k"] in ("ForStmt", "WhileStmt", "DoStmt") for a in f.ancestors(w)):
+                counters.add(p[1])
+        # narrow locals assigned from a counter inherit the problem (maxseq = currentseq)
+        changed = True
+        while changed:
+            changed = False
+            for lv, w in written_lvalues(f):
+                p = access_path(f, lv)
+                if p and p[0] == "local" and len(p) == 2 and p[1] in narrow and p[1] not in counters and w.get("op") == "=" and w.get("rhs") is not None:
+                    r = access_path(f, w["rhs"])
+                    if r and r[0] == "local" and len(r) == 2 and r[1] in counters:
+                        counters.add(p[1])
+                        changed = True
+        for d in sorted(counters):
+            rep.visit(f)
+            rep.inst(f.loc, "%s: %d-bit loop counter %s" % (f.qn, narrow[d][1]["bits"], narrow[d][0]))
+            for c in f.calls():
+                g = db.funcs.get(c.get("f"))
+                for i, a in enumerate(c.get("args", [])):
+                    sa = strip(a)
+                    if sa["k"] == "DeclRefExpr" and sa.get("dk") == "local" and sa.get("d") == d:
+                        rep.ob()
+                        pt = f.type(a)          # type after the implicit conversion to the parameter type
+                        if pt and pt.get("kind") in ("int", "uint") and (pt.get("bits") or 0) > narrow[d][1]["bits"]:
+                            rep.viol("%s#narrow-counter-%s" % (f.qn, narrow[d][0]), f.nloc(c),
+                                     "%s counts in the %d-bit local %s and hands the result to %s as a %d-bit %s: longer inputs wrap the count and the "
+                                     "receiver is sized for the wrapped value" % (
+                                         f.qn, narrow[d][1]["bits"], narrow[d][0], c.get("fn"), pt["bits"],
+                                         (g.params[i]["n"] if g is not None and i < len(g.params) else "argument")), f.qn)
